@@ -132,6 +132,19 @@ pub fn for_each_string(run: &Run, f: &F, pool: &rayon::ThreadPool, visit: &(dyn 
             visit(&s);
         });
     });
+    // G5: structural alphabet, longer strings
+    let ssig = st::structural_sigma(f);
+    let l5 = tier.pick(4usize, 5usize);
+    let total5 = st::g1_count(ssig.len(), l5);
+    run.bound(&format!("structural_sigma_{}", f.name), json!(ssig.len()));
+    run.bound("g5_max_tokens", json!(l5));
+    run.count(&format!("g5_strings_{}", f.name), total5);
+    pool.install(|| {
+        (0..total5).into_par_iter().for_each(|i| {
+            let s = st::g1_nth(&ssig, l5, i);
+            visit(&s);
+        });
+    });
     let bases = st::bases(f, tier == Tier::Thorough);
     run.count(&format!("g2_bases_{}", f.name), bases.len() as u64);
     let n2 = std::sync::atomic::AtomicU64::new(0);
@@ -165,7 +178,9 @@ pub fn small_stack_pool() -> rayon::ThreadPool {
 
 pub fn run(run: &Run) {
     run.rule(
-        "G1: every token string of length <= L over the format's token alphabet (all keywords + 16 \
+        "G5: every token string of length <= 4 (5 thorough) over a 21-token structural alphabet (one \
+         bracket pair of each kind, separator, connecters, copulas, placeholder, atom, number, item \
+         brackets); G1: every token string of length <= L over the format's token alphabet (all keywords + 16 \
          literals incl. non-ASCII, combining, emoji); G2: every string at one deviation (truncate, \
          delete, duplicate, replace by / insert any alphabet token, cut inside a token) from ~150 \
          well-formed token lists incl. 8-deep towers, with and without spaces; G3: 512-char \
